@@ -189,6 +189,17 @@ CLAIMED = {
             "rows the original and the working estimator have seen, object identity and both outputs.",
             "stubs stand for the wrapped models; real scikit-learn models cover decision_function, transform and mixed "
             "dtypes; the library's own refusal (AssertionError on tree estimators with copy_estimator=True) is skipped."),
+    "C05": ("DESIGN 4/C05",
+            "TLA+ spec Pinball (exact integer pinball loss, LP vertex optimum, quantile count): TLC model checking + trace "
+            "validation of fitted lines and scores against the optimum the specification computes itself",
+            "TLC checks vertex optimality against every lattice line in a box and the quantile count for every small data "
+            "set; for seeded integer data (unweighted, integer weights, the same weights as repeated rows; six quantiles; "
+            "fit_intercept / positive) the fitted line, score and the cross-score of the 1-q fit are validated by "
+            "PinballTrace: loss within the stated IRLS tolerance of the exact optimum, score = twice the weighted mean of "
+            "the same loss, a better q-fit never scores worse, about a fraction q below the line, sign and intercept "
+            "options.",
+            "max_iter=100; tolerance 1.02*Opt+1.5 is a stated constant; one feature (vertex enumeration); fitted "
+            "coefficients enter on a 1e-2 grid."),
 }
 
 PENDING_REASON = "check not built yet in this round (planned: see DESIGN.md section 4); not claimed until it runs"
